@@ -610,6 +610,10 @@ def loop_census(ctx, crate):
                 continue
             eff += 1
             if not loop_exhaustive(b, lp):
+                # restart idiom: the loop is abandoned only to run the whole function again on the same input
+                restart = {c.bb for c in b.calls if c.callee and c.callee.target == b.id and not b.blocks[c.bb]["cleanup"]}
+                if restart and b.must_pass(lp[3], b.return_blocks(), set(lp[2]) | restart):
+                    continue
                 early.setdefault(b.file, []).append((crate.root_of(b), b, lp, fx))
     for file, sites in sorted(early.items()):
         ent = EARLY_EXIT_LOOPS.get(file)
